@@ -28,6 +28,11 @@ use serde_json::{json, Value};
 
 use crate::common::{guarded, CaseWriter, Opts, Rng};
 
+#[path = "c17_multi.rs"]
+mod c17_multi;
+#[path = "c17_block.rs"]
+mod c17_block;
+
 fn cps(s: &str) -> Vec<u32> {
 	s.chars().map(|c| c as u32).collect()
 }
@@ -525,7 +530,11 @@ fn run_loc(opts: &Opts) {
 	let mut w = CaseWriter::new(&opts.out);
 	let mut rng = Rng::new(opts.seed);
 	let mut hist = BTreeMap::<String, usize>::new();
-	let mut bump = |k: &str| *hist.entry(k.to_string()).or_default() += 1;
+	macro_rules! bump {
+		($k:expr) => {
+			*hist.entry(($k).to_string()).or_default() += 1
+		};
+	}
 
 	// fixed witnesses first (the theorems' counterexamples / non-vacuity examples are replayed here)
 	let fixed: &[&str] = &[
@@ -544,15 +553,15 @@ fn run_loc(opts: &Opts) {
 		let qs = gen_queries(&mut rng, t);
 		loc_map_case(&mut w, t, &qs);
 		loc_frame_case(&mut w, &mut rng, t);
-		bump("text.fixed");
+		bump!("text.fixed");
 	}
 	let n_text = if opts.thorough() { 12000 } else { 1500 };
 	for i in 0..n_text {
 		let maxlen = if i % 10 == 0 { 120 } else { 24 };
 		let t = gen_text(&mut rng, maxlen);
-		bump(if t.is_ascii() { "text.ascii" } else { "text.multibyte" });
+		bump!(if t.is_ascii() { "text.ascii" } else { "text.multibyte" });
 		if t.contains("\r\n") {
-			bump("text.crlf");
+			bump!("text.crlf");
 		}
 		let qs = gen_queries(&mut rng, &t);
 		loc_map_case(&mut w, &t, &qs);
@@ -567,21 +576,25 @@ fn run_loc(opts: &Opts) {
 	for i in 0..n_plant {
 		let kind = KINDS[i % KINDS.len()];
 		let p = gen_planted(&mut rng, kind);
-		bump(&format!("plant.{:?}", p.kind));
+		bump!(&format!("plant.{:?}", p.kind));
 		if p.nonascii_before {
-			bump("plant.nonascii_before");
+			bump!("plant.nonascii_before");
 		}
 		if p.nonascii_on {
-			bump("plant.nonascii_on_line");
+			bump!("plant.nonascii_on_line");
 		}
 		if p.crlf {
-			bump("plant.crlf_before");
+			bump!("plant.crlf_before");
 		}
 		planted_case(&mut w, &s, &cap, &p);
 	}
+	drop(_g);
+	// traces over several files: planted multi-file programs and synthetic multi-source traces
+	c17_multi::run_multi(&mut w, &mut rng, &opts.out, opts.thorough(), &mut hist);
+	c17_multi::run_synth(&mut w, &mut rng, opts.thorough(), &mut hist);
 	let meta = json!({
 		"engine":"c17","cases":w.n,"texts":n_text + fixed.len(),"planted":n_plant,"hist":hist,
-		"rule":"texts over {ASCII, tab, LF, CRLF, lone CR, 2/3/4-byte chars, combining mark, U+2028, U+0085} up to 120 chars: map_source_locations at every character boundary singly and in tuples of 2..5 (unsorted, repeated, off-boundary, past the end) vs model and reference; 8 synthetic trace frames per text rendered by CompactFormat vs print model and reference start; programs with error / assert / object assert / failing call (callee + call site) / syntax error / std.trace / field error planted after comment, blank, CRLF, multi-byte filler lines and after ASCII or non-ASCII text on the same line"
+		"rule":"texts over {ASCII, tab, LF, CRLF, lone CR, 2/3/4-byte chars, combining mark, U+2028, U+0085} up to 120 chars: map_source_locations at every character boundary singly and in tuples of 2..5 (unsorted, repeated, off-boundary, past the end) vs model and reference; 8 synthetic trace frames per text rendered by CompactFormat vs print model and reference start; programs with error / assert / object assert / failing call (callee + call site) / syntax error / std.trace / field error planted after comment, blank, CRLF, multi-byte filler lines and after ASCII or non-ASCII text on the same line; multi-file programs (main + 1-2 imported libraries, main as file or as virtual snippet) where the failing construct in the library and the call/import in the importer are padded to IDENTICAL start/end byte offsets on different lines/columns: every frame's line/column vs the reference of ITS OWN file through CompactFormat, JsFormat (column convention: finding) and HiDocFormat (observed highlight); synthetic traces over 2-3 virtual sources with shared spans: whole CompactFormat output vs the writeTrace model; ImportSyntaxError at arbitrary offsets vs the syntaxErrorLoc model"
 	});
 	w.finish(meta, &opts.out);
 }
@@ -789,9 +802,11 @@ fn run_lex(opts: &Opts) {
 			}
 		}
 	}
+	// the text-block scanner against its model
+	c17_block::run_blocks(&mut w, &mut rng, opts.thorough(), &mut hist);
 	let meta = json!({
 		"engine":"c17lex","cases":w.n,"origin_hist":hist,"tokens_seen":tokens,"ir_parsed":parsed,"ast_spans_seen":spans,
-		"rule":"every entry of a 110-token vocabulary (keywords, operators, numbers, all string forms incl. unterminated, 17 text-block shapes incl. malformed/CRLF/multi-byte, comments, odd whitespace, stray bytes) alone; token soups of up to 14 of them; random strings; 1-3 character-level mutations of 5 programs; planted programs: Lexer ranges must tile [0,len) on char boundaries and rowan SourceFile text must equal the input; every span in the parsed IR must lie inside the text on char boundaries"
+		"rule":"every entry of a 110-token vocabulary (keywords, operators, numbers, all string forms incl. unterminated, 17 text-block shapes incl. malformed/CRLF/multi-byte, comments, odd whitespace, stray bytes) alone; token soups of up to 14 of them; random strings; 1-3 character-level mutations of 5 programs; planted programs: Lexer ranges must tile [0,len) on char boundaries and rowan SourceFile text must equal the input; every span in the parsed IR must lie inside the text on char boundaries; text-block bodies from a grammar (|||- / header whitespace incl. CR / missing or garbage header / leading and inner blank lines / indents of spaces, tabs and mixes / deeper, shorter and different indents / CRLF lines and CRLF blank lines / non-ASCII, NBSP and ||| inside lines / terminator shorter than, equal to (= content) or unrelated to the indent / missing terminator / unterminated last line / trailing text) plus one-character mutations: result class and bytes bumped by the real lexer, truncate flag and lines of collect_lexed_str_block, and the evaluated string value vs the Lean scanner model (blk.scan)"
 	});
 	w.finish(meta, &opts.out);
 }
@@ -874,8 +889,29 @@ fn run_cli(opts: &Opts) {
 			);
 		}
 	}
+	// multi-file programs through the binary
+	let n_multi = if opts.thorough() { 600 } else { 90 };
+	for i in 0..n_multi {
+		let m = c17_multi::gen_multi(&mut rng, i, "liba.libsonnet");
+		let d = dir.join("mf").join(format!("{i}"));
+		c17_multi::write_files(&d, &m);
+		*hist.entry(format!("multi.{}", m.kind)).or_default() += 1;
+		*hist.entry(format!("multi.{}", if m.collide { "equal-offsets" } else { "control" })).or_default() += 1;
+		let labels: Vec<String> = m.files.iter().map(|f| format!("{}:", f.name)).collect();
+		let mut cmd = std::process::Command::new(&bin);
+		if i % 5 == 4 {
+			cmd.arg("--trace-format").arg("compact");
+		}
+		match cmd.arg(d.join("main.jsonnet")).output() {
+			Ok(o) => {
+				let stderr = String::from_utf8_lossy(&o.stderr).into_owned();
+				w.case(c17_multi::mstart_op(&m, "cli.multi"), c17_multi::mstart_answer(&m, &stderr, &labels));
+			}
+			Err(e) => w.case(c17_multi::mstart_op(&m, "cli.multi"), json!({"spawn": e.to_string()})),
+		}
+	}
 	let meta = json!({"engine":"c17cli","cases":w.n,"hist":hist,
-		"rule":"planted programs (same generator as c17) written to a file and run through the jrsonnet binary: line of `TRACE: file:line` (StdTracePrinter) and start line/column of the named frame in the stderr trace vs the reference"});
+		"rule":"multi-file programs (main + 1-2 libraries, frames padded to identical byte offsets in different files) through the binary: every frame vs the reference of its own file; planted programs (same generator as c17) written to a file and run through the jrsonnet binary: line of `TRACE: file:line` (StdTracePrinter) and start line/column of the named frame in the stderr trace vs the reference"});
 	w.finish(meta, &opts.out);
 }
 
